@@ -2,8 +2,8 @@
 
 Obligations: Props/C17.v (bind_unique, bind_ranges, close_frees, resolve_exact, datagram_exact over
 all operation sequences of the model Model/Addr.v).
-Correspondence: histories of socket/bind/listen/accept/connect/sendto/recvfrom/resolve/close on two
-REAL LogicalLinkController objects (harness/sim/c17_llc.py; PDUs moved by the real collect/dispatch)
+Correspondence: histories of socket/bind/listen/accept/connect/sendto/recvfrom/resolve/close, all made through
+nfc.llcp.socket.Socket objects, on two REAL LogicalLinkController objects (harness/sim/c17_llc.py; PDUs moved by the real collect/dispatch)
 against the extracted model: result of every call, every PDU on the link, every delivery event and
 a digest of both address tables after every step.
 Monitor: an independent reference address table written from the property text (class Ref).
@@ -290,7 +290,7 @@ class History(object):
         if kind == 'socket':
             R.new(op[2])
         elif kind == 'bind':
-            R.on_bind(op[2], op[3], res, self.real_addr(sd, op[2]), self.hist)
+            R.on_bind(op[2], normarg(op[3]), res, self.real_addr(sd, op[2]), self.hist)
         elif kind in ('listen', 'connect', 'sendto', 'rawsend'):
             i = op[2]
             R.on_autobind(i, self.real_addr(sd, i), self.hist)
@@ -454,12 +454,21 @@ def unjson(x):
     return x
 
 
+def normarg(a):
+    """bind argument as the model sees it: omitted and None are the same, a name is a name however it is spelled"""
+    if a == 'None':
+        return 'none'
+    if a not in ('none', 'bad') and a[0] in ('s', 'ba'):
+        return ('n', a[1])
+    return a
+
+
 def op_line(op):
     k, sd = op[0], op[1]
     if k == 'socket':
         return 'socket %s %s' % (sd, op[2])
     if k == 'bind':
-        a = op[3]
+        a = normarg(op[3])
         if a in ('none', 'bad'):
             t = a
         elif a[0] == 'a':
@@ -538,6 +547,12 @@ def corpus():
               ('rawsend', 'A', 0, 'CC,32,40'), ('pump', 'A'), ('rawsend', 'A', 0, 'UI,32,40,07'), ('pump', 'A'), ('pump', 'B'),
               ('pump', 'B'), ('recvfrom', 'A', 0), ('recvfrom', 'A', 0), ('close', 'B', 0), ('getsockname', 'B', 0),
               ('socket', 'B', 'ldl'), ('bind', 'B', 1, ('a', 32))])
+    # falsy arguments must not be taken for "no address given" (nfc.llcp.socket.Socket.bind passes them on)
+    H.append([('socket', 'A', 'ldl'), ('bind', 'A', 0, ('a', 0)), ('bind', 'A', 0, ('n', b'')), ('bind', 'A', 0, ('s', b'')),
+              ('bind', 'A', 0, ('ba', b'')), ('getsockname', 'A', 0), ('socket', 'A', 'raw'), ('bind', 'A', 1, ('a', 0)),
+              ('getsockname', 'A', 1), ('bind', 'A', 1, 'None'), ('getsockname', 'A', 1), ('socket', 'A', 'dlc'),
+              ('bind', 'A', 2, ('s', VALID[2])), ('socket', 'A', 'dlc'), ('bind', 'A', 3, ('ba', SNEP)), ('getsockname', 'A', 3),
+              ('socket', 'B', 'ldl'), ('connect', 'B', 0, ('a', 0)), ('sendto', 'B', 0, b'', 0), ('pump', 'B')])
     # odd names
     h = []
     for k, n in enumerate(ODD + INVALID):
@@ -584,11 +599,11 @@ class Gen(object):
             elif x < 0.36:
                 y = r.random()
                 if y < 0.2:
-                    arg = 'none'
+                    arg = r.choice(['none', 'none', 'None'])
                 elif y < 0.42:
-                    arg = ('a', r.choice([0, 1, 2, 4, 4, 15, 16, 17, 31, 32, 33, 40, 63, 64, -1, 1000]))
+                    arg = ('a', r.choice([0, 0, 1, 2, 4, 4, 15, 16, 17, 31, 32, 33, 40, 63, 64, -1, 1000]))
                 elif y < 0.96:
-                    arg = ('n', self.names())
+                    arg = (r.choice(['n', 'n', 'n', 's', 'ba']), self.names())
                 else:
                     arg = 'bad'
                 H.apply(('bind', sd, pick(), arg))
@@ -672,7 +687,7 @@ def exhaustive_histories(depth):
     a, b = VALID[0], VALID[1]
     alphabet = []
     for i in range(3):
-        for arg in ('none', ('n', a), ('n', b), ('n', SNEP), ('a', 4), ('a', 16), ('a', 40)):
+        for arg in ('none', ('n', a), ('n', b), ('n', SNEP), ('a', 4), ('a', 0), ('s', b'')):
             alphabet.append(('bind', 'A', i, arg))
         alphabet.append(('close', 'A', i))
     pre = [('socket', 'A', 'ldl'), ('socket', 'A', 'dlc'), ('socket', 'A', 'raw')]
@@ -744,7 +759,7 @@ def main():
     for ops in corpus():
         for agf in (False, True):
             batch.add(run_history(ck, ops, agf), 'corpus')
-    nrand = 2000 if quick else 20000
+    nrand = 1500 if quick else 20000
     for k in range(nrand):
         agf = bool(k % 2)
         batch.add(run_history(ck, [], agf, Gen(rng, agf, rng.choice([10, 25, 40, 60]))), 'random')
